@@ -49,7 +49,10 @@ def module_consts(mod):
 def check(run, project):
     L = ctx.layout(project)
     run.explanation = ("delegation / return-value agreement of all front-ends (siblings), dominance of hex-alphabet tests over "
-                       "int(x, 16), header constants recomputed from L, state-machine shape of the swtpm scanner")
+                       "int(x, 16), header constants recomputed from L and the pcapng packet loop (def-use, loop exits), transition "
+                       "tables of the swtpm and hex scanners over path summaries of one loop iteration (applied to a scanner in the "
+                       "form they are stated over), decision table of the format detector, end-of-input defaults, reads of unbound / "
+                       "undefined names")
     f1_f2(run, project)
     f3(run, project)
     c10.t2(run, project)
